@@ -355,6 +355,7 @@ pub fn fair_suffix(sim: &mut Sim) {
         sim.with_mon(|m, _| m.fail(kind, format!("after {} fair rounds (all nodes running, every message delivered, regular ticks): {}", r, if why.is_empty() { "injected".to_string() } else { why })));
         return;
     }
+    sim.with_mon(|m, _| m.cov("C10 fair suffixes converged"));
     // a fresh proposal must be applied on every running member
     let l = v.leaders[0];
     let mut target = 0;
@@ -402,6 +403,9 @@ pub fn fair_suffix(sim: &mut Sim) {
         if ok {
             break;
         }
+    }
+    if ok {
+        sim.with_mon(|m, _| m.cov("C10 fresh proposals applied everywhere"));
     }
     if !ok {
         let panicked = sim.mon.as_ref().map_or(0, |m| m.panics_seen) != panics0;
